@@ -62,6 +62,90 @@ pub fn caps(strict: bool) -> ChecksumCapabilities {
     }
 }
 
+/// Checksum-capability configuration of one emit/parse pair, for the representations whose
+/// `emit`/`parse` take `ChecksumCapabilities`.  Only the field of the protocol under test is
+/// varied, the others stay at their default.
+///
+///  * `Default`, `Tx`, `None`: emit and parse under the same capabilities;
+///  * `RxDevice`: the same for `Checksum::Rx` ("the device computes the checksum when
+///    sending"): emit leaves the checksum to the device, the harness stands in for the device
+///    (the packet view's public `fill_checksum`), parse verifies;
+///  * `DefaultThenNone`: emit with default, parse with verification off (must still parse);
+///  * `RxThenTx`: emit without computing (`Rx`), parse without verifying (`Tx`), nobody fills.
+///
+/// Whenever the emitting capabilities have tx off, the checksum field belongs to the device
+/// (lenient reading: it is not among "the bytes produced" by emit) and is left out of the
+/// pre-fill comparison; everything else is compared as always.
+#[derive(Clone, Copy, Debug, PartialEq, Eq)]
+pub enum Ck {
+    Default,
+    Tx,
+    None,
+    RxDevice,
+    DefaultThenNone,
+    RxThenTx,
+}
+pub const CK_ALL: [Ck; 6] = [Ck::Default, Ck::None, Ck::Tx, Ck::RxDevice, Ck::DefaultThenNone, Ck::RxThenTx];
+#[derive(Clone, Copy, Debug)]
+pub enum Proto {
+    Ipv4,
+    Udp,
+    Tcp,
+    Icmpv4,
+    Icmpv6,
+}
+fn caps_with(p: Proto, v: smoltcp::phy::Checksum) -> ChecksumCapabilities {
+    let mut c = ChecksumCapabilities::default();
+    match p {
+        Proto::Ipv4 => c.ipv4 = v,
+        Proto::Udp => c.udp = v,
+        Proto::Tcp => c.tcp = v,
+        Proto::Icmpv4 => c.icmpv4 = v,
+        Proto::Icmpv6 => c.icmpv6 = v,
+    }
+    c
+}
+impl Ck {
+    pub fn emit_caps(self, p: Proto) -> ChecksumCapabilities {
+        use smoltcp::phy::Checksum as C;
+        match self {
+            Ck::Default | Ck::DefaultThenNone => ChecksumCapabilities::default(),
+            Ck::Tx => caps_with(p, C::Tx),
+            Ck::None => caps_with(p, C::None),
+            Ck::RxDevice | Ck::RxThenTx => caps_with(p, C::Rx),
+        }
+    }
+    /// capabilities of the strict parse; the lenient parse of mutants ignores all checksums
+    pub fn parse_caps(self, p: Proto, strict: bool) -> ChecksumCapabilities {
+        use smoltcp::phy::Checksum as C;
+        if !strict {
+            return ChecksumCapabilities::ignored();
+        }
+        match self {
+            Ck::Default => ChecksumCapabilities::default(),
+            Ck::Tx | Ck::RxThenTx => caps_with(p, C::Tx),
+            Ck::None | Ck::DefaultThenNone => caps_with(p, C::None),
+            Ck::RxDevice => caps_with(p, C::Rx),
+        }
+    }
+    pub fn tx_off(self) -> bool {
+        matches!(self, Ck::None | Ck::RxDevice | Ck::RxThenTx)
+    }
+    pub fn device_fills(self) -> bool {
+        self == Ck::RxDevice
+    }
+    pub fn name(self) -> &'static str {
+        match self {
+            Ck::Default => "",
+            Ck::Tx => "emit-Tx-parse-Tx",
+            Ck::None => "emit-None-parse-None",
+            Ck::RxDevice => "emit-Rx-device-fills-parse-Rx",
+            Ck::DefaultThenNone => "emit-default-parse-None",
+            Ck::RxThenTx => "emit-Rx-parse-Tx",
+        }
+    }
+}
+
 /// One wire representation type under test.
 ///
 /// `R<'x>` is the real smoltcp `Repr` (possibly paired with the payload the type's API
@@ -112,6 +196,20 @@ pub trait Rt: 'static {
     /// One violation is recorded per returned cause.
     fn dirty_cause(_r: &Self::R<'_>, _off: &[usize]) -> Option<Vec<String>> {
         None
+    }
+    /// For contexts that carry a checksum-capability mode: the same context under default
+    /// capabilities (None if it already is), a name for the mode, and whether emit leaves
+    /// the checksum field to the device.  A violation found under a non-default mode is
+    /// reported under the plain signature if the same value also shows it under default
+    /// capabilities, and with a `/caps-<mode>` suffix otherwise.
+    fn base_ctx(_c: &Self::Ctx) -> Option<Self::Ctx> {
+        None
+    }
+    fn ctx_tag(_c: &Self::Ctx) -> String {
+        String::new()
+    }
+    fn tx_off(_c: &Self::Ctx) -> bool {
+        false
     }
     /// The class part of a signature for a given clause: `fields` names the differing fields
     /// (empty for panics / buffer dependence).  Lets a type name only the class of the
@@ -174,6 +272,9 @@ pub struct Acc {
     pub mutants_outside_proviso: u64,
     pub mutant_parse_panics: u64,
     pub catalogue_parsed: u64,
+    /// informational: values whose checksum field depended on the buffer while the emitting
+    /// capabilities leave that field to the device (not a verdict, see `Ck`)
+    pub cksum_field_left_as_is_tx_off: u64,
     pub viols: BTreeMap<String, (String, Value)>,
     pub viol_hits: BTreeMap<String, u64>,
     pub sample: Option<Value>,
@@ -204,6 +305,7 @@ impl Acc {
         self.mutants_outside_proviso += o.mutants_outside_proviso;
         self.mutant_parse_panics += o.mutant_parse_panics;
         self.catalogue_parsed += o.catalogue_parsed;
+        self.cksum_field_left_as_is_tx_off += o.cksum_field_left_as_is_tx_off;
         for (k, v) in o.viols {
             self.viols.entry(k).or_insert(v);
         }
@@ -390,13 +492,35 @@ pub fn check<T: Rt>(acc: &mut Acc, tier: Tier, r: &T::R<'_>, c: &T::Ctx, o: &Ori
     let tag = T::sig_tag_for(r, "");
     let kind = if derived { "re-parsed" } else { "generated" };
     let rj = || replay_json::<T>(tier, o);
+    // signature under a non-default capability mode: plain if the value shows the same
+    // signature under default capabilities too, `/caps-<mode>` appended otherwise
+    let mode = T::ctx_tag(c);
+    let mut under_default: Option<std::collections::BTreeSet<String>> = None;
+    let mut fix = |base: String| -> String {
+        if mode.is_empty() {
+            return base;
+        }
+        let set = under_default.get_or_insert_with(|| match T::base_ctx(c) {
+            None => Default::default(),
+            Some(c0) => {
+                let mut a = Acc::default();
+                check::<T>(&mut a, tier, r, &c0, o);
+                a.viols.keys().cloned().collect()
+            }
+        });
+        if set.contains(&base) {
+            base
+        } else {
+            format!("{}/caps-{}", base, mode)
+        }
+    };
     let n = match catch_unwind(AssertUnwindSafe(|| T::blen(r, c))) {
         Ok(n) => n,
         Err(e) => {
             let site = site();
             let (m, l) = (panic_msg(e), last_panic_loc());
             acc.viol(
-                format!("C06/buffer_len-panic/{}{}/{}", T::NAME, tagsep(&tag), site),
+                fix(format!("C06/buffer_len-panic/{}{}/{}", T::NAME, tagsep(&tag), site)),
                 || format!("buffer_len() of a {} value panicked: {} at {}; value {:?} ctx {:?}", kind, m, l, r, c),
                 rj,
             );
@@ -411,7 +535,7 @@ pub fn check<T: Rt>(acc: &mut Acc, tier: Tier, r: &T::R<'_>, c: &T::Ctx, o: &Ori
             Ok(Ok(())) => bufs.push(b),
             Ok(Err(msg)) => {
                 acc.viol(
-                    format!("C06/emit-refuses/{}{}", T::NAME, tagsep(&tag)),
+                    fix(format!("C06/emit-refuses/{}{}", T::NAME, tagsep(&tag))),
                     || format!("emit of a {} value into a buffer of its declared length {} (pre-filled 0x{:02x}) returned an error ({}); value {:?} ctx {:?}", kind, n, fill, msg, r, c),
                     rj,
                 );
@@ -421,7 +545,7 @@ pub fn check<T: Rt>(acc: &mut Acc, tier: Tier, r: &T::R<'_>, c: &T::Ctx, o: &Ori
                 let site = site();
                 let (m, l) = (panic_msg(e), last_panic_loc());
                 acc.viol(
-                    format!("C06/emit-panic/{}{}/{}", T::NAME, tagsep(&tag), site),
+                    fix(format!("C06/emit-panic/{}{}/{}", T::NAME, tagsep(&tag), site)),
                     || {
                         format!(
                             "emit of a {} value into a buffer of its declared length {} (pre-filled 0x{:02x}) panicked: {} at {}; value {:?} ctx {:?}",
@@ -434,16 +558,28 @@ pub fn check<T: Rt>(acc: &mut Acc, tier: Tier, r: &T::R<'_>, c: &T::Ctx, o: &Ori
             }
         }
     }
-    if bufs[1] != bufs[0] || bufs[2] != bufs[0] {
-        let ck = T::cksum(r);
-        let all: Vec<usize> = (0..n).filter(|&i| bufs[1][i] != bufs[0][i] || bufs[2][i] != bufs[0][i]).collect();
+    // with tx checksumming off the checksum field is the device's, not among the bytes emit
+    // produces (lenient reading, see `Ck`)
+    let ck = T::cksum(r);
+    if T::tx_off(c) {
+        if let Some(k) = &ck {
+            if k.clone().any(|i| i < n && (bufs[1][i] != bufs[0][i] || bufs[2][i] != bufs[0][i])) {
+                acc.cksum_field_left_as_is_tx_off += 1;
+            }
+        }
+    }
+    let all: Vec<usize> = (0..n)
+        .filter(|&i| bufs[1][i] != bufs[0][i] || bufs[2][i] != bufs[0][i])
+        .filter(|i| !(T::tx_off(c) && ck.as_ref().map(|k| k.contains(i)).unwrap_or(false)))
+        .collect();
+    if !all.is_empty() {
         let mut off = all.clone();
         if let Some(ck) = &ck {
             off.retain(|i| !ck.contains(i));
         }
         let causes = T::dirty_cause(r, &off).unwrap_or_else(|| vec![format!("bytes{}", ranges(&off))]);
         for cause in causes {
-            let sig = format!("C06/emit-depends-on-buffer/{}{}/{}", T::NAME, tagsep(&tag), cause);
+            let sig = fix(format!("C06/emit-depends-on-buffer/{}{}/{}", T::NAME, tagsep(&tag), cause));
             acc.viol(
                 sig,
                 || {
@@ -487,7 +623,7 @@ pub fn check<T: Rt>(acc: &mut Acc, tier: Tier, r: &T::R<'_>, c: &T::Ctx, o: &Ori
             }));
             let tag = T::sig_tag_for(r, &why);
             acc.viol(
-                format!("C06/{}-parse-fails/{}{}/{}", clause, T::NAME, tagsep(&tag), why),
+                fix(format!("C06/{}-parse-fails/{}{}/{}", clause, T::NAME, tagsep(&tag), why)),
                 || format!("bytes emitted (zero-filled buffer) from a {} value are rejected by the parser ({}): value {:?} ctx {:?} emitted {}", kind, why, r, c, hex(&bufs[0])),
                 rj,
             );
@@ -496,7 +632,7 @@ pub fn check<T: Rt>(acc: &mut Acc, tier: Tier, r: &T::R<'_>, c: &T::Ctx, o: &Ori
             let d = grouped_diff::<T>(&T::show_lhs(r), &p);
             let tag = T::sig_tag_for(r, &d);
             acc.viol(
-                format!("C06/{}-differs/{}{}/{}", clause, T::NAME, tagsep(&tag), d),
+                fix(format!("C06/{}-differs/{}{}/{}", clause, T::NAME, tagsep(&tag), d)),
                 || {
                     format!(
                         "parse(emit(r)) != r ({} value, zero-filled buffer), differing fields: {}; r = {:?}; parsed = {}; ctx {:?}; emitted {}",
@@ -509,7 +645,7 @@ pub fn check<T: Rt>(acc: &mut Acc, tier: Tier, r: &T::R<'_>, c: &T::Ctx, o: &Ori
         Err((m, l)) => {
             let site = site();
             acc.viol(
-                format!("C06/{}-parse-panic/{}{}/{}", clause, T::NAME, tagsep(&tag), site),
+                fix(format!("C06/{}-parse-panic/{}{}/{}", clause, T::NAME, tagsep(&tag), site)),
                 || format!("parsing the bytes emitted from a {} value panicked: {} at {}; value {:?} emitted {}", kind, m, l, r, hex(&bufs[0])),
                 rj,
             );
@@ -902,6 +1038,7 @@ pub fn run(tier: Tier) -> i32 {
                 "mutant_parser_panics_ignored": a.mutant_parse_panics,
                 "handmade_catalogue_packets": s.catalogue_packets, "handmade_catalogue_parsed": a.catalogue_parsed,
                 "reparsed_values_checked": a.r2_values,
+                "checksum_field_left_as_it_was_while_tx_checksum_off_not_a_verdict": a.cksum_field_left_as_is_tx_off,
                 "generated_values_re_executed_identically": s.validated,
                 "violation_hits_by_signature": a.viol_hits,
                 "sample_value": a.sample, "sample_mutant": a.sample_mut,
